@@ -186,6 +186,7 @@ class KdBufParser:
 
         log_events = []
         log_strings = {}
+        trace_codes = b''
 
         for block in additional_data:
             if block.tag == TRACEV3_DYLD_MODULES:
@@ -195,7 +196,8 @@ class KdBufParser:
                 else:
                     self.dyld_modules['Binaries'].extend(data['Binaries'])
             elif block.tag == TRACEV3_TRACE_CODES:
-                self.trace_codes += block.data.decode()
+                # Decoded once all the blocks are known, a character may be split between two blocks.
+                trace_codes += block.data
             elif block.tag == TRACEV3_PROCESSES:
                 self.processes = plistlib.loads(block.data)
             elif block.tag == TRACEV3_KERNEL_EXTENSIONS:
@@ -206,6 +208,7 @@ class KdBufParser:
                 log_events.extend(plistlib.loads(block.data)['Events'])
             elif block.tag == TRACEV3_LOG_STRINGS:
                 log_strings = {v: k for k, v in plistlib.loads(block.data)['StringIndex'].items()}
+        self.trace_codes = trace_codes.decode()
 
         for event in log_events:
             log_event = OsLogEvent.from_raw_log_event(event, log_strings)
